@@ -925,11 +925,9 @@ class PDDLWriter:
                 out.write(f"{_format_action_instance(ai)}\n")
         elif isinstance(plan, TimeTriggeredPlan):
             for s, ai, dur in plan.timed_actions:
-                start = s.numerator if s.denominator == 1 else float(s)
-                out.write(f"{start}: {_format_action_instance(ai)}")
+                out.write(f"{_time_to_str(s)}: {_format_action_instance(ai)}")
                 if dur is not None:
-                    duration = dur.numerator if dur.denominator == 1 else float(dur)
-                    out.write(f"[{duration}]")
+                    out.write(f"[{_time_to_str(dur)}]")
                 out.write("\n")
         else:
             raise NotImplementedError
@@ -1138,6 +1136,18 @@ class PDDLWriter:
             if item in costs:
                 out.write(f" (increase (total-cost) {converter.convert(costs[item])})")
             out.write(")")
+
+
+def _time_to_str(time: Fraction) -> str:
+    """
+    Returns the plain decimal notation of a plan time: exact when the time has a finite decimal expansion of
+    up to 50 digits, never in scientific notation (the plan format has no exponents).
+    """
+    if time.denominator == 1:
+        return str(time.numerator)
+    with localcontext() as ctx:
+        ctx.prec = 50
+        return format(Decimal(time.numerator) / Decimal(time.denominator), "f")
 
 
 def _get_pddl_name(
